@@ -56,3 +56,140 @@ Definition bounded_left (W B : Z) (tr : list sentry) : Prop :=
   forall pre e post k, tr = pre ++ e :: post -> is_pass e = true ->
     good_window W B k -> in_left W k (s_now e) = true ->
     count (in_left W k) (pre ++ [e]) <= s_lim e.
+
+(* ------------------------------------------------------------------ *)
+(** Vocabulary added for the audit items (nominal limit, stale spill-over, windows inside
+    the window left open by a size change). *)
+
+(* the requests of a single-key history, each paired with the window data it carried *)
+Fixpoint run_single_wd (o : option st) (h : list sev) : list (wdata * sentry) :=
+  match h with
+  | [] => []
+  | ev :: r =>
+      let '(o', es) := step_single o ev in
+      match ev with
+      | SInc _ wd => map (pair wd) es
+      | SPeek _ => []
+      end ++ run_single_wd o' r
+  end.
+
+(* what happened to the requests of key k in a store-level history: (window data of the
+   request, its entry); [map snd (judged k h) = entries_of k (run_map [] h)] *)
+Definition judged (k : key) (h : list (Z * action)) : list (wdata * sentry) :=
+  run_single_wd None (project k h).
+
+(* the limit the statement speaks about: the allowed count scaled by the allocation ratio,
+   rounded up -- no spill-over *)
+Definition nominal (wd : wdata) : Z := scaled_quota (wAllowed wd) (wParts wd).
+
+(* no request so far had spill-over enabled *)
+Definition spill_free (l : list (wdata * sentry)) : Prop :=
+  Forall (fun we => wSpillOn (fst we) = false) l.
+Definition spill_freeb (l : list (wdata * sentry)) : bool :=
+  forallb (fun we => negb (wSpillOn (fst we))) l.
+
+(* per request that proceeded with spill-over disabled: it is within the nominal limit of its
+   own window data, counting the requests that proceeded before it in the same grid window;
+   [side] = the condition on the requests up to and including it *)
+Definition nominal_right (side : list (wdata * sentry) -> Prop) (W : Z)
+           (tr : list (wdata * sentry)) : Prop :=
+  forall pre wd e post j, tr = pre ++ (wd, e) :: post -> is_pass e = true ->
+    wSpillOn wd = false -> side (pre ++ [(wd, e)]) -> in_right W j (s_now e) = true ->
+    count (in_right W j) (map snd pre ++ [e]) <= nominal wd.
+Definition nominal_left (side : list (wdata * sentry) -> Prop) (W : Z)
+           (tr : list (wdata * sentry)) : Prop :=
+  forall pre wd e post j, tr = pre ++ (wd, e) :: post -> is_pass e = true ->
+    wSpillOn wd = false -> side (pre ++ [(wd, e)]) -> in_left W j (s_now e) = true ->
+    count (in_left W j) (map snd pre ++ [e]) <= nominal wd.
+
+(* per rejected request with spill-over disabled: the nominal limit of its own window data is
+   used up in the closed grid cell around it *)
+Definition nominal_rejections (side : list (wdata * sentry) -> Prop) (W : Z)
+           (tr : list (wdata * sentry)) : Prop :=
+  forall pre wd e post, tr = pre ++ (wd, e) :: post -> s_verdict e = Block -> 0 < s_now e ->
+    wSpillOn wd = false -> side (pre ++ [(wd, e)]) ->
+    exists j, in_closed W j (s_now e) = true /\ nominal wd <= count (in_closed W j) (map snd pre).
+
+(* after a window-size change: only the one grid window that contains the end B of the window
+   left open is excluded (windows that end at or before B are inside the old window) *)
+Definition good_window_tight (W B k : Z) : Prop := good_window W B k \/ (k + 1) * W <= B.
+
+Definition bounded_right_tight (W B : Z) (tr : list sentry) : Prop :=
+  forall pre e post k, tr = pre ++ e :: post -> is_pass e = true ->
+    good_window_tight W B k -> in_right W k (s_now e) = true ->
+    count (in_right W k) (pre ++ [e]) <= s_lim e.
+
+(* ------------------------------------------------------------------ *)
+(** Plugin-level histories: calls of StrategyBasedThrottlingPlugin.OnRequest (any remedies,
+    any headers) and metrics collections (RateLimitState.Counters()). *)
+
+Inductive pev :=
+| PReq (now : Z) (r : remedy) (hs : list (str * str))
+| PCol (now : Z).
+
+Definition pev_now (e : pev) : Z := match e with PReq t _ _ => t | PCol t => t end.
+
+(* the counter key a request reaches (None: decided by a default behaviour, no counter) *)
+Definition pkey_of (r : remedy) (hs : list (str * str)) : option key :=
+  match plugin_pre r hs with PreLimit k _ => Some k | PreDone _ => None end.
+
+(* one entry per OnRequest call: instant, key reached, configured rejection status, action *)
+Record pentry := { p_now : Z; p_key : option key; p_status : Z; p_out : pout }.
+
+Fixpoint run_plugin_hist (m : smap) (h : list pev) : list pentry :=
+  match h with
+  | [] => []
+  | PReq now r hs :: rest =>
+      let '(m', o) := plugin_step m now r hs in
+      {| p_now := now; p_key := pkey_of r hs; p_status := status_of r; p_out := o |}
+        :: run_plugin_hist m' rest
+  | PCol now :: rest => run_plugin_hist (fst (step_map m now APeek)) rest
+  end.
+
+Definition reaches (k : key) (o : option key) : bool :=
+  match o with Some k' => key_eqb k k' | None => false end.
+
+Definition pentries_of (k : key) (tr : list pentry) : list pentry :=
+  filter (fun e => reaches k (p_key e)) tr.
+
+(* the events of a plugin history that concern key k: the requests that reach it and every
+   collection *)
+Definition concerns (k : key) (e : pev) : bool :=
+  match e with PReq _ r hs => reaches k (pkey_of r hs) | PCol _ => true end.
+
+(* number of NoOp answers at an instant satisfying p *)
+Fixpoint pcount (p : Z -> bool) (tr : list pentry) : Z :=
+  match tr with
+  | [] => 0
+  | e :: r => (match p_out e with PNoOp => if p (p_now e) then 1 else 0 | _ => 0 end) + pcount p r
+  end.
+
+(* every request of the history that reaches key k hands window data wd to the limiter *)
+Definition plugin_requests_use (k : key) (wd : wdata) (h : list pev) : Prop :=
+  Forall (fun e => match e with
+                   | PReq _ r hs => forall k' rb, plugin_pre r hs = PreLimit k' rb -> k' = k ->
+                                                  wd_of_remedy r rb = wd
+                   | PCol _ => True
+                   end) h.
+
+(* the store-level history a plugin history amounts to *)
+Definition store_ev (e : pev) : list (Z * action) :=
+  match e with
+  | PReq now r hs => match plugin_pre r hs with
+                     | PreLimit k rb => [(now, AInc k (wd_of_remedy r rb))]
+                     | PreDone _ => []
+                     end
+  | PCol now => [(now, APeek)]
+  end.
+Definition store_hist (h : list pev) : list (Z * action) := flat_map store_ev h.
+
+(* the requests of the suite "plugin" (Model.run_plugin_reqs) as a plugin history *)
+Fixpoint pevs_of_reqs (base : Z) (rs : list remedy) (reqs : list req_t) : option (list pev) :=
+  match reqs with
+  | [] => Some []
+  | (now, i, hs) :: rest =>
+      match nth_error rs i, pevs_of_reqs base rs rest with
+      | Some r, Some h => Some (PReq (base + now) r hs :: h)
+      | _, _ => None
+      end
+  end.
